@@ -24,6 +24,8 @@ import (
 	"strconv"
 	"strings"
 	"sync"
+
+	"verif/harness/internal/gen"
 )
 
 // MaxIdx is the library's default bound on list indices in paths.
@@ -298,6 +300,10 @@ func (n *Node) RemovePath(segs []Seg) (removed bool, old *Node, err error) {
 		}
 		old = cur.A[last.Idx]
 		cur.A = append(cur.A[:last.Idx:last.Idx], cur.A[last.Idx+1:]...)
+		if len(cur.A) == 0 {
+			// the last remaining element: what is left is a list with 0 elements
+			cur.Prim = EmptyList
+		}
 		return true, old, nil
 	}
 	if o, ok := cur.D[last.Name]; ok {
@@ -404,4 +410,114 @@ func (n *Node) Leaves(sep string) []string {
 // entries).
 func (n *Node) Empty() bool {
 	return n.Kind == "nil" || (n.Kind == "cont" && len(n.D) == 0 && len(n.A) == 0)
+}
+
+// ---------------------------------------------------------------------------
+// empty lists
+//
+// In a plain tree of dictionaries and lists a list does not stop being a list
+// when it holds no element: a list whose elements were all removed, and an
+// empty list that was written or merged in where nothing (or a primitive) was
+// before, is a list with 0 elements. Such a container carries the EmptyList
+// mark. The mark lives in the Prim field, which containers do not use
+// otherwise, so that Copy (and with it MergeValues/MergeCont, which copy what
+// they bring in) carries it along; it is never taken away again (a list that
+// is refilled has elements, which is all IsList looks at then).
+
+type emptyListMark struct{}
+
+// EmptyList is the value of Prim that marks a container as "has a list part,
+// which holds no element".
+var EmptyList interface{} = emptyListMark{}
+
+// IsList reports whether the node has a list part: it holds list elements, or
+// it is a list that holds none (see EmptyList).
+func (n *Node) IsList() bool {
+	return n.Kind == "cont" && (len(n.A) > 0 || n.Prim == EmptyList)
+}
+
+// IsEmptyList: a pure list (no named keys) with 0 elements.
+func (n *Node) IsEmptyList() bool {
+	return n.Kind == "cont" && len(n.A) == 0 && len(n.D) == 0 && n.Prim == EmptyList
+}
+
+// FromTreeLists is FromTree with the empty lists of the tree marked as lists.
+func FromTreeLists(t *gen.Tree) *Node {
+	n := FromTree(t)
+	markEmptyLists(t, n)
+	return n
+}
+
+func markEmptyLists(t *gen.Tree, n *Node) {
+	switch t.K {
+	case "list":
+		if len(t.Vals) == 0 {
+			n.Prim = EmptyList
+		}
+		for i, e := range t.Vals {
+			markEmptyLists(e, n.A[i])
+		}
+	case "obj":
+		for i, k := range t.Keys {
+			var c *Node
+			if idx, ok := IndexOf(k, MaxIdx); ok {
+				c = n.A[idx]
+			} else {
+				c = n.D[k]
+			}
+			markEmptyLists(t.Vals[i], c)
+		}
+	}
+}
+
+// EmptyListMeets reports whether merging from into to (containers) brings an
+// empty list to a place where a nil or a container without a list part is:
+// nothing is added there, and the statement does not say whether what is left
+// is a list (the library leaves the old node as it was; for a nil that is an
+// empty config which is no list). It mirrors the traversal of MergeCont.
+func EmptyListMeets(pol Policy, to, from *Node) bool {
+	if from.IsList() && len(from.A) == 0 && !to.IsList() {
+		return true
+	}
+	if len(from.D) > 0 && pol != Replace {
+		for k, v := range from.D {
+			if old := to.D[k]; old != nil && emptyListMeetsValue(pol, old, v) {
+				return true
+			}
+		}
+	}
+	if pol == Default {
+		for i := 0; i < len(to.A) && i < len(from.A); i++ {
+			if emptyListMeetsValue(pol, to.A[i], from.A[i]) {
+				return true
+			}
+		}
+	}
+	return false
+}
+
+func emptyListMeetsValue(pol Policy, old, v *Node) bool {
+	so, ok := asCont(old)
+	if !ok {
+		return false
+	}
+	sv, ok := asCont(v)
+	if !ok {
+		return false
+	}
+	return EmptyListMeets(pol, so, sv)
+}
+
+// HasEmptyList reports whether an empty list occurs anywhere in the tree.
+func HasEmptyList(t *gen.Tree) bool {
+	if t == nil {
+		return false
+	}
+	found := false
+	t.Walk(nil, func(_ []string, n *gen.Tree) {
+		if n.K == "list" && len(n.Vals) == 0 {
+			found = true
+		}
+	})
+	return found
 }
